@@ -90,7 +90,8 @@ Fixpoint pick (curr : option gate) (cands : list gate) : option gate :=
   | c :: rest => pick (if should_ctl curr c then Some c else curr) rest
   end.
 
-Inductive ostat := Ok | Unauth | Valid | Multi | ResFail | Skip | Panic.
+(* Valid: validate.ErrValidation (duplicate subject); Config: config validation (PathError) *)
+Inductive ostat := Ok | Unauth | Valid | Multi | ResFail | Skip | Panic | Config.
 
 Record ocfg := OCfg { o_h : N; o_subj : N; o_auth : N; o_tr : trange;
                       o_eic : bool; o_eou : bool; o_resfail : bool }.
@@ -184,7 +185,7 @@ Definition open_gate (fixed shared : bool) (s : ctl) (c : ocfg) : ctl * out :=
   if existsb (N.eqb (o_h c)) (c_used s) then (s, Out Skip false X0 0) else
   let used' := c_used s ++ [o_h c] in
   if (o_subj c =? 0) || tr_is_zero (o_tr c)
-  then (Ctl (c_regions s) (c_nres s) used' (c_live s), Out Valid false X0 0)
+  then (Ctl (c_regions s) (c_nres s) used' (c_live s), Out Config false X0 0)
   else if fixed then
     match n_overlapping c (c_regions s) with
     | O => new_region shared s c used'
